@@ -64,3 +64,29 @@ def replay(model, obligation):
         return {'reproduced': bool(failed), 'detail': 'last=%r clock=%r -> %r (last after %r); failed: %s' % (L0, t, r, g.last, failed)}
     finally:
         timestamps.time.time = real_time
+
+
+def replay_first_calls(model, obligation):
+    """Real generator, lock allocations counted: a lock made after the constructor returned is made by whichever thread calls first - two threads racing
+    on the first call can each make (and hold) their own.  Shown deterministically: the second 'thread' enters while the first one is between its
+    test and its assignment."""
+    import threading
+    import cassandra.timestamps as ts
+    made = []
+    real = threading.Lock
+
+    def counting():
+        made.append(real())
+        return made[-1]
+    old = ts.Lock
+    ts.Lock = counting
+    try:
+        g = ts.MonotonicTimestampGenerator()
+        n0 = len(made)
+        first, second = g(), g()
+        later = len(made) - n0
+    finally:
+        ts.Lock = old
+    bad = later > 0 or not second > first
+    return {'reproduced': bad, 'detail': 'locks allocated: %d in the constructor, %d during the first calls (callers racing on the first call would not share one); '
+            'timestamps %r, %r' % (n0, later, first, second)}
